@@ -14,6 +14,9 @@ Walks the AST of the generator modules of the working tree under test and writes
                    path-suffixed variables as they occur in the templates.
   * `builtinNames` keys of `code_tools.utils.NAME_TO_BUILTIN` of the tree under test.
   * `fieldIdValidated`  `BaseField.__post_init__` still refuses ids that are not identifiers.
+  * `nextIdPrefixes` / `nextIdThroughMangling`  the prefixes of the numbered helper names of the converter generator
+                   (`register_next_id("constant" | "func" | "accessor", ...)`) and the fact that the numbered name is
+                   handed to `register_mangled` (it is a basis, not a reserved name).
 
 Nothing here is specific to one version of the templates: the lists are whatever the source says now.
 """
@@ -923,13 +926,37 @@ def field_id_validated(repo: Path) -> bool:
     return valid_fn and post_init
 
 
+def next_id_facts(repo: Path):
+    """The numbered helper names of the converter generator (`GenState.register_next_id`, broaching/code_generator.py):
+    * the prefixes it is called with, in source order ("?" for an argument that is not a string literal);
+    * whether every `return` of `register_next_id` hands the numbered name to `self.register_mangled` (the numbered
+      name is only a BASIS, a user object may already carry it) and the function stores nothing in the namespace itself."""
+    m = ast.parse((repo / (INTERNAL + "conversion/broaching/code_generator.py")).read_text())
+    prefixes, through = [], False
+    for n in ast.walk(m):
+        if isinstance(n, ast.Call) and isinstance(n.func, ast.Attribute) and n.func.attr == "register_next_id":
+            a0 = n.args[0] if n.args else None
+            prefixes.append((n.lineno, a0.value if isinstance(a0, ast.Constant) and isinstance(a0.value, str) else "?"))
+        if isinstance(n, ast.ClassDef) and n.name == "GenState":
+            for f in n.body:
+                if isinstance(f, ast.FunctionDef) and f.name == "register_next_id":
+                    rets = [r for r in ast.walk(f) if isinstance(r, ast.Return)]
+                    calls = [c.func.attr for c in ast.walk(f) if isinstance(c, ast.Call) and isinstance(c.func, ast.Attribute)]
+                    through = (bool(rets)
+                               and all(isinstance(r.value, ast.Call) and ast.unparse(r.value.func) == "self.register_mangled"
+                                       for r in rets)
+                               and all(c == "register_mangled" for c in calls))
+    return [p for _, p in sorted(prefixes)], through
+
+
 def analyse(repo: Path):
     a = Analysis(repo)
     sites = a.sites()
     specs = {}
     for key, idx in (("loader", 0), ("dumper", 1)):
         specs[key] = a.name_spec(a.gen_modules[idx])
-    return dict(sites=sites, specs=specs, builtins=builtin_names(repo), field_id_validated=field_id_validated(repo))
+    return dict(sites=sites, specs=specs, builtins=builtin_names(repo), field_id_validated=field_id_validated(repo),
+                next_id=next_id_facts(repo))
 
 
 def render_lean(data) -> str:
@@ -964,6 +991,13 @@ def render_lean(data) -> str:
     L.append("/-- `BaseField.__post_init__` refuses ids for which `str.isidentifier()` is false -/")
     L.append(f"def fieldIdValidated : Bool := {'true' if data['field_id_validated'] else 'false'}")
     L.append("")
+    prefixes, through = data["next_id"]
+    L.append("/-- prefixes `GenState.register_next_id` is called with (broaching/code_generator.py, source order) -/")
+    L.append("def nextIdPrefixes : List Str := [" + ", ".join(f"\n  {lean_str(x)} /- {x} -/" for x in prefixes) + "]")
+    L.append("")
+    L.append("/-- every `return` of `register_next_id` is `self.register_mangled(<numbered name>, obj)` -/")
+    L.append(f"def nextIdThroughMangling : Bool := {'true' if through else 'false'}")
+    L.append("")
     L.append("end Adaptix.Generated.C19")
     return "\n".join(L) + "\n"
 
@@ -995,5 +1029,5 @@ if __name__ == "__main__":
         print(k, "families", fams)
         print(k, "heads", heads)
         print(k, "fixed", fixed)
-    print("builtins", len(d["builtins"]), "fieldIdValidated", d["field_id_validated"])
+    print("builtins", len(d["builtins"]), "fieldIdValidated", d["field_id_validated"], "next_id", d["next_id"])
     print("raw sites:", sum(1 for s in d["sites"] if s["cls"] == RAW or not s["ctx"]), "of", len(d["sites"]))
